@@ -68,6 +68,7 @@ type Oblig struct {
 	Rewrites []Rewrite          `json:"rewrites"`
 	Tiers    map[string]TierCfg `json:"tiers"`
 	Alt      string             `json:"alt_solver"` // e.g. cvc5-bvint for arithmetic-heavy obligations
+	Solver   string             `json:"solver"`     // main back end (default z3); e.g. "cvc5" for comparison-chain heavy obligations
 	Expect   string             `json:"expect"`     // "" | "reach" (a twin whose violation is expected)
 	Desc     string             `json:"desc"`
 	Bounds   string             `json:"bounds"`
@@ -416,7 +417,11 @@ func runOblig(o *Oblig, tier string) *ObligResult {
 		return res
 	}
 	res.LoadS = prog.LoadDur.Seconds()
-	solver, err := symgo.NewSolver("z3", tc.QueryMs)
+	mainSolver := "z3"
+	if o.Solver != "" {
+		mainSolver = o.Solver
+	}
+	solver, err := symgo.NewSolver(mainSolver, tc.QueryMs)
 	if err != nil {
 		res.Status = "error"
 		res.Error = err.Error()
